@@ -20,6 +20,8 @@ import (
 	govtypes "github.com/KiraCore/sekai/x/gov/types"
 	multistakingtypes "github.com/KiraCore/sekai/x/multistaking/types"
 	recoverytypes "github.com/KiraCore/sekai/x/recovery/types"
+	slashingtypes "github.com/KiraCore/sekai/x/slashing/types"
+	stakingtypes "github.com/KiraCore/sekai/x/staking/types"
 	tokenstypes "github.com/KiraCore/sekai/x/tokens/types"
 	sdk "github.com/cosmos/cosmos-sdk/types"
 	banktypes "github.com/cosmos/cosmos-sdk/x/bank/types"
@@ -36,6 +38,7 @@ type RewardsParams struct {
 	NBlocks    int     `json:"blocks"`
 	Fees       []int64 `json:"fee_cycle_ukex"`
 	ClaimEvery int     `json:"claim_rewards_every_n_blocks"`
+	FeeDenom   string  `json:"fee_denom"` // "" = ukex; xeth / ubtc are fee-enabled foreign denoms (xeth is not stake-enabled)
 }
 
 func drawRewards(r *hx.Rng, seed uint64, adversarial bool) RewardsParams {
@@ -45,6 +48,7 @@ func drawRewards(r *hx.Rng, seed uint64, adversarial bool) RewardsParams {
 		p.Snap = pickI(r, 1, 1, 2, 5)
 		p.Interval = pickU(r, 1, 1, 3)
 		p.CapBtc = "0.5"
+		p.FeeDenom = pickS(r, "", "", "xeth", "ubtc")
 	}
 	return p
 }
@@ -87,14 +91,21 @@ func runRewards(p RewardsParams, ops hx.Counter) []Case {
 	for b := 0; b < p.NBlocks && !h.Halted; b++ {
 		fee := p.Fees[b%len(p.Fees)]
 		h.Block(BlockReq{Dt: 5}, func() {
-			h.TxFee("bank-send", 4, ukex(fee), banktypes.NewMsgSend(c.Accounts[4].Addr, c.Accounts[5].Addr, ukex(1)))
+			feeCoins := ukex(fee)
+			switch p.FeeDenom {
+			case "xeth": // fee rate 0.1
+				feeCoins = sdk.NewCoins(sdk.NewInt64Coin("xeth", fee*10))
+			case "ubtc": // fee rate 10
+				feeCoins = sdk.NewCoins(sdk.NewInt64Coin("ubtc", fee/10+1))
+			}
+			h.TxFee("bank-send", 4, feeCoins, banktypes.NewMsgSend(c.Accounts[4].Addr, c.Accounts[5].Addr, ukex(1)))
 			if p.ClaimEvery > 0 && b%p.ClaimEvery == p.ClaimEvery-1 {
 				d := 1 + b%p.Delegators
 				h.TxFee("claim-rewards", d, ukex(100), multistakingtypes.NewMsgClaimRewards(c.Accounts[d].Addr.String()))
 			}
 		}, nil)
 	}
-	log = append(log, fmt.Sprintf("%d blocks dt=5, each with a bank send by a4 paying a fee from the cycle %v ukex", p.NBlocks, p.Fees))
+	log = append(log, fmt.Sprintf("%d blocks dt=5, each with a bank send by a4 paying a fee from the cycle %v (ukex value) in denom %q", p.NBlocks, p.Fees, p.FeeDenom))
 	// keep the replay small: only the first and last few blocks
 	js, _ := json.Marshal(p)
 	_ = js
@@ -113,15 +124,25 @@ type SlashParams struct {
 	Delegate string `json:"delegation"` // coins delegated to the offender's pool, "" = none
 	Vote     int    `json:"vote_option"`
 	Slash    string `json:"vote_slash"`
+	After    bool   `json:"continue_after_the_slash"` // fast proposals (genesis 30 s / 30 s), unjail, undelegate, rewards with the slashed pool's validator proposing
+	Compound bool   `json:"delegator_autocompounds"`
 }
 
 // A validator with a staking pool double-signs: the evidence handler (BeginBlock) jails it and raises a
 // SlashValidator proposal WITHOUT the dry run of SubmitProposal; when it passes, Apply runs
 // multistaking.SlashStakingPool inside the gov end-blocker.
 func runSlash(p SlashParams, ops hx.Counter) []Case {
-	h := NewH(abci.Config{Accounts: 6, Validators: 3, Seed: p.Seed}, ops)
+	cfg := abci.Config{Accounts: 6, Validators: 3, Seed: p.Seed}
+	if p.After {
+		cfg.Gov = func(g *govtypes.GenesisState) {
+			g.NetworkProperties.MinimumProposalEndTime = 30
+			g.NetworkProperties.ProposalEnactmentTime = 30
+			g.NetworkProperties.AutocompoundIntervalNumBlocks = 1
+		}
+	}
+	h := NewH(cfg, ops)
 	c := h.C
-	log := []string{fmt.Sprintf("chain accounts=6 validators=3 seed=%d", p.Seed)}
+	log := []string{fmt.Sprintf("chain accounts=6 validators=3 seed=%d (after=%v: genesis proposal end/enactment time 30 s, autocompound interval 1)", p.Seed, p.After)}
 	off := c.Validators[1]
 	h.Block(BlockReq{Dt: 5}, func() {
 		res := h.Tx("upsert-staking-pool", off.Owner, multistakingtypes.NewMsgUpsertStakingPool(c.Accounts[off.Owner].Addr.String(), off.ValAddr.String(), true, dec("0.1")))
@@ -130,6 +151,12 @@ func runSlash(p SlashParams, ops hx.Counter) []Case {
 			amt, _ := sdk.ParseCoinsNormalized(p.Delegate)
 			res = h.Tx("delegate", 4, multistakingtypes.NewMsgDelegate(c.Accounts[4].Addr.String(), off.ValAddr.String(), amt))
 			log = append(log, fmt.Sprintf("a4 delegates %s to it code=%d", amt, res.Code))
+			res = h.Tx("delegate", 5, multistakingtypes.NewMsgDelegate(c.Accounts[5].Addr.String(), off.ValAddr.String(), amt))
+			log = append(log, fmt.Sprintf("a5 delegates %s to it code=%d", amt, res.Code))
+			if p.Compound {
+				res = h.Tx("set-compound-info", 4, multistakingtypes.NewMsgSetCompoundInfo(c.Accounts[4].Addr.String(), true, nil))
+				log = append(log, fmt.Sprintf("a4 sets autocompound for all denoms code=%d", res.Code))
+			}
 		}
 	}, nil)
 	h.Block(BlockReq{Dt: 5, Evidence: []int{1}}, nil, nil)
@@ -139,13 +166,56 @@ func runSlash(p SlashParams, ops hx.Counter) []Case {
 			res := h.Tx("vote-proposal", 0, govtypes.NewMsgVoteProposal(1, c.Accounts[0].Addr, govtypes.VoteOption(p.Vote), dec(p.Slash)))
 			log = append(log, fmt.Sprintf("a0 votes %v slash=%s on proposal 1 code=%d", govtypes.VoteOption(p.Vote), p.Slash, res.Code))
 		}
+		if p.After {
+			msg, _ := govtypes.NewMsgSubmitProposal(c.Accounts[0].Addr, "unjail", "unjail", stakingtypes.NewUnjailValidatorProposal(c.Accounts[0].Addr, off.ValAddr, "ref"))
+			res := h.Tx("submit-proposal", 0, msg)
+			log = append(log, fmt.Sprintf("a0 submits UnjailValidator(validator 1) code=%d %s", res.Code, short(res.Log)))
+			res = h.Tx("vote-proposal", 0, govtypes.NewMsgVoteProposal(2, c.Accounts[0].Addr, govtypes.OptionYes, sdk.ZeroDec()))
+			log = append(log, fmt.Sprintf("a0 votes yes on it code=%d", res.Code))
+		}
 	}, nil)
-	for i, dt := range []int64{310, 310, 5, 400, 5} {
-		if !h.Block(BlockReq{Dt: dt, Proposer: 2 * i, Absent: []int{1}}, nil, nil) {
+	if !p.After {
+		for i, dt := range []int64{310, 310, 5, 400, 5} {
+			if !h.Block(BlockReq{Dt: dt, Proposer: 2 * i, Absent: []int{1}}, nil, nil) {
+				break
+			}
+		}
+		log = append(log, "blocks dt=310,310,5,400,5")
+		return []Case{histCase("slash-proposal", h, log, p)}
+	}
+	for i, dt := range []int64{35, 35, 5, 5} {
+		if !h.Block(BlockReq{Dt: dt, Proposer: 2 * (i % 2), Absent: []int{1}}, nil, nil) { // validators 0 and 2 propose while 1 is jailed
 			break
 		}
 	}
-	log = append(log, "blocks dt=310,310,5,400,5")
+	log = append(log, "blocks dt=35,35,5,5 (both proposals finalised and enacted)")
+	for b := 0; b < 12 && !h.Halted; b++ {
+		prop := 0 // CometBFT lets validator 1 propose only while it is in the set: use it when the app has it active
+		if v, err := c.App.CustomStakingKeeper.GetValidator(c.QueryCtx(), off.ValAddr); err == nil && v.IsActive() {
+			prop = 1
+		}
+		h.Block(BlockReq{Dt: 5, Proposer: prop}, func() {
+			h.TxFee("bank-send", 3, ukex(int64(1001+2*b)), banktypes.NewMsgSend(c.Accounts[3].Addr, c.Accounts[2].Addr, ukex(1)))
+			switch b {
+			case 0:
+				res := h.Tx("activate", off.Owner, slashingtypes.NewMsgActivate(off.ValAddr))
+				log = append(log, fmt.Sprintf("the owner of validator 1 sends MsgActivate code=%d %s", res.Code, short(res.Log)))
+			case 2:
+				res := h.Tx("undelegate", 5, multistakingtypes.NewMsgUndelegate(c.Accounts[5].Addr.String(), off.ValAddr.String(), ukex(1000)))
+				log = append(log, fmt.Sprintf("a5 undelegates 1000ukex from the slashed pool code=%d %s", res.Code, short(res.Log)))
+			case 4:
+				res := h.Tx("claim-rewards", 5, multistakingtypes.NewMsgClaimRewards(c.Accounts[5].Addr.String()))
+				log = append(log, fmt.Sprintf("a5 claims rewards code=%d", res.Code))
+			case 6:
+				res := h.Tx("delegate", 3, multistakingtypes.NewMsgDelegate(c.Accounts[3].Addr.String(), off.ValAddr.String(), ukex(5000)))
+				log = append(log, fmt.Sprintf("a3 delegates to the slashed pool code=%d", res.Code))
+			case 8:
+				res := h.Tx("upsert-staking-pool", off.Owner, multistakingtypes.NewMsgUpsertStakingPool(c.Accounts[off.Owner].Addr.String(), off.ValAddr.String(), true, dec("0.1")))
+				log = append(log, fmt.Sprintf("the owner re-enables the pool code=%d", res.Code))
+			}
+		}, nil)
+	}
+	log = append(log, "12 blocks dt=5 proposed by validator 1 when it is active again (else validator 0), each with a bank send paying an odd fee")
 	return []Case{histCase("slash-proposal", h, log, p)}
 }
 
@@ -195,4 +265,57 @@ func short(s string) string {
 		return s[:120]
 	}
 	return s
+}
+
+// ------------------------------------------------------------------ the previous proposer is no longer active when its reward is allocated
+
+type PauseParams struct {
+	Seed     uint64 `json:"chain_seed"`
+	Interval uint64 `json:"genesis_autocompound_interval_blocks"`
+	How      string `json:"how"` // "pause" (MsgPause by the proposer's owner in its own block), "evidence" (double-sign evidence in the next block), "none"
+	Compound bool   `json:"delegator_autocompounds"`
+}
+
+// Validator 1 proposes block H and has a staking pool with an autocompounding delegator. It stops being
+// active (own MsgPause in block H, or evidence / downtime handled by the begin-blockers that run BEFORE the
+// distributor in block H+1); AllocateTokens of H+1 still credits its pool and the autocompound re-delegation
+// is refused ("not an active validator") -> panic(err) in IncreasePoolRewards.
+func runPauseProposer(p PauseParams, ops hx.Counter) []Case {
+	h := NewH(abci.Config{Accounts: 6, Validators: 3, Seed: p.Seed,
+		Gov: func(g *govtypes.GenesisState) { g.NetworkProperties.AutocompoundIntervalNumBlocks = p.Interval }}, ops)
+	c := h.C
+	log := []string{fmt.Sprintf("chain accounts=6 validators=3 seed=%d genesis autocompound_interval_num_blocks=%d", p.Seed, p.Interval)}
+	v := c.Validators[1]
+	h.Block(BlockReq{Dt: 5}, func() {
+		h.Tx("upsert-staking-pool", v.Owner, multistakingtypes.NewMsgUpsertStakingPool(c.Accounts[v.Owner].Addr.String(), v.ValAddr.String(), true, dec("0.1")))
+		res := h.Tx("delegate", 4, multistakingtypes.NewMsgDelegate(c.Accounts[4].Addr.String(), v.ValAddr.String(), ukex(1_000_000)))
+		log = append(log, fmt.Sprintf("validator 1 gets a staking pool; a4 delegates 1000000ukex code=%d", res.Code))
+		if p.Compound {
+			h.Tx("set-compound-info", 4, multistakingtypes.NewMsgSetCompoundInfo(c.Accounts[4].Addr.String(), true, nil))
+			log = append(log, "a4 sets autocompound for all denoms")
+		}
+	}, nil)
+	for b := 0; b < 3; b++ {
+		h.Block(BlockReq{Dt: 5, Proposer: b}, func() {
+			h.TxFee("bank-send", 3, ukex(1001), banktypes.NewMsgSend(c.Accounts[3].Addr, c.Accounts[2].Addr, ukex(1)))
+		}, nil)
+	}
+	h.Block(BlockReq{Dt: 5, Proposer: 1}, func() {
+		h.TxFee("bank-send", 3, ukex(1003), banktypes.NewMsgSend(c.Accounts[3].Addr, c.Accounts[2].Addr, ukex(1)))
+		if p.How == "pause" {
+			res := h.Tx("pause", v.Owner, slashingtypes.NewMsgPause(v.ValAddr))
+			log = append(log, fmt.Sprintf("block proposed by validator 1; its owner sends MsgPause in it code=%d", res.Code))
+		}
+	}, nil)
+	req := BlockReq{Dt: 5, Proposer: 2}
+	if p.How == "evidence" {
+		req.Evidence = []int{1}
+		log = append(log, "next block carries duplicate-vote evidence against validator 1 (jailed by the evidence begin-blocker, which runs before the distributor)")
+	}
+	h.Block(req, nil, nil)
+	for b := 0; b < 3 && !h.Halted; b++ {
+		h.Block(BlockReq{Dt: 5, Proposer: 2 * (b % 2), Absent: []int{1}}, nil, nil)
+	}
+	log = append(log, "4 more blocks dt=5")
+	return []Case{histCase("proposer-deactivated", h, log, p)}
 }
